@@ -552,6 +552,9 @@ func mirrorController(p *Project, src *Controller, pf Profile) *Controller {
 		}
 		m.Name += "M"
 		m.File = c.File
+		if !strings.HasPrefix(m.Route, "/") {
+			m.Route = "/" + m.Route // the source controller's prefix ended with the slash
+		}
 		if m.ErrType != nil {
 			// custom error types live in the controller's own package: the mirror gets its own
 			errName := "ApiError" + strings.ToUpper(pkgAlias(c.Pkg)[:1]) + pkgAlias(c.Pkg)[1:]
@@ -682,7 +685,9 @@ func genValidator(t *rapid.T, pf Profile, typ TypeRef) string {
 		var pool []string
 		switch {
 		case base.Kind == "prim" && base.Name == "string":
-			pool = []string{"email", "uuid", "ip", "ipv4", "ipv6", "hostname", "date", "datetime", "min=1", "max=10", "len=5", "pattern=^[a-z]+$", "enum=a|b|c", "oneof=a b c", "required", "oneof=required optional", "enum=required|not_required"}
+			pool = []string{"email", "uuid", "ip", "ipv4", "ipv6", "hostname", "date", "datetime", "min=1", "max=10", "len=5", "pattern=^[a-z]+$", "enum=a|b|c", "oneof=a b c", "required", "oneof=required optional", "enum=required|not_required",
+				// arguments that contain the separator itself
+				"oneof=k=asc k=desc", "pattern=^[a-z]+=[0-9]+$", "enum=a=1|b=2"}
 		case base.Kind == "prim" && base.Name == "bool":
 			pool = []string{"required"}
 		case base.Kind == "prim":
